@@ -91,20 +91,22 @@ def last_seg(ty):
 ENUMS = {'Option': ['None', 'Some'], 'Result': ['Ok', 'Err'], 'ControlFlow': ['Continue', 'Break']}
 STRUCTS = {}
 def scan_types(paths):
-    for p in paths:
+    # serde mirror structs of the JSON layer share simple names with the model types: keep them apart
+    for p in sorted(paths, key=lambda x: 'json_serialisation' not in x):
+        pre = 'Json' if 'json_serialisation' in p else ''
         src = re.sub(r'//[^\n]*', '', open(p).read())
         for m in re.finditer(r'\benum (\w+)[^{;]*\{(.*?)\n\}', src, re.S):
             body = re.sub(r'#\[.*?\]', '', m.group(2)); vs = []
             for part in split_top(body):
                 vm = re.match(r'\s*(\w+)', part)
                 if vm: vs.append(vm.group(1))
-            ENUMS[m.group(1)] = vs
+            ENUMS[pre + m.group(1)] = vs
         for m in re.finditer(r'\bstruct (\w+)[^{;(]*\{(.*?)\n\}', src, re.S):
             fs = []
             for part in split_top(m.group(2)):
                 fm = re.match(r'\s*(?:#\[[^\]]*\]\s*)*(?:pub(?:\([\w:]+\))? )?(\w+)\s*:', part)
                 if fm: fs.append(fm.group(1))
-            STRUCTS[m.group(1)] = fs
+            STRUCTS[pre + m.group(1)] = fs
 
 IMPLS = {}
 def norm_trait(tr):
@@ -629,7 +631,9 @@ class Exec:
             return ('agg', m.group(1), None, [co(part.split(': ', 1)[1]) for part in split_top(m.group(2))] if m.group(2) else [])
         m = re.match(r'^([\w:<>, &\'\[\]\(\)]+?) \{ (.*) \}$', s)
         if m:
-            nm = last_seg(m.group(1)); fields = STRUCTS.get(nm)
+            nm = last_seg(m.group(1))
+            if 'json_serialisation::' in m.group(1): nm = 'Json' + nm
+            fields = STRUCTS.get(nm)
             parts = split_top(m.group(2))
             # enum struct-like variant?  Enum::Variant { .. }
             if fields is None: fields = [p.split(': ', 1)[0] for p in parts]
